@@ -12,8 +12,10 @@ m = {
     "hooks": {"guard": "BOOST_MULTI_VERIF",
               "enable": "no hooks are needed: everything is observed through template parameters (element, allocator, pointer types), link-time interposition and addresses; the guard name is reserved and unused",
               "baseline_off_cmd": "/verif/baseline.sh", "source_commits": [], "add_only": True},
-    "engines": [{"name": "rapidcheck+libFuzzer harness", "path": "/verif/check", "serves_properties": sorted(P.PROPS),
-                 "kind_free_text": "property-based testing (rapidcheck, 16 worker processes) and coverage-guided fuzzing (libFuzzer) over one shared byte-level input format with a total decoder and an explicit model oracle; replay files are the raw input bytes"}],
+    "engines": [{"name": "rapidcheck+libFuzzer harness", "path": "/verif/check", "serves_properties": sorted(k for k in P.PROPS if "custom" not in P.PROPS[k]),
+                 "kind_free_text": "property-based testing (rapidcheck, 16 worker processes) and coverage-guided fuzzing (libFuzzer) over one shared byte-level input format with a total decoder and an explicit model oracle; replay files are the raw input bytes"},
+                {"name": "generated-program harness", "path": "/verif/py/c16.py", "serves_properties": ["C16"],
+                 "kind_free_text": "grammar-based generation of C++ access-path expressions (bounded-exhaustive + seeded random) evaluated by the real compiler: type-level probes in batched translation units and build/link attempts of mutating statements; replay files are the path text; started through /verif/check"}],
     "checks": [], "not_applicable": [], "notes": "see DESIGN.md; known_findings.txt lists recorded and fixed defects",
 }
 for i in ALL:
@@ -22,7 +24,7 @@ for i in ALL:
         m["checks"].append({
             "property_id": i, "quick_cmd": "./check %s --tier quick" % i, "thorough_cmd": "./check %s --tier thorough" % i,
             "evidence_file": "/verif/evidence/%s.json" % i, "replay_cmd_template": "./check %s --replay {path}" % i,
-            "engine": "rapidcheck+libFuzzer harness",
+            "engine": c.get("engine", "rapidcheck+libFuzzer harness"),
             "level_claimed": {"category": c.get("level", "exploration"), "text": c["level_text"], "design_ref": c.get("design_ref", "DESIGN.md section 4, " + i)},
             "level_note": c.get("level_note", "trusted base: clang++ 14 with ASan/UBSan, rapidcheck, libFuzzer and the reference model/oracle code under /verif/vp; bounds as stated in the evidence rule; no claim beyond the explored cases"),
             "technique": c["technique"]})
